@@ -9,6 +9,61 @@ from ..vloop import VLoop
 from . import methods
 
 
+def custom_classes():
+    """trivial subclasses / wrappers for every pluggable piece of a dispatcher: behaviour must be unchanged, and the
+    dispatcher must really use what it was given (each one counts its uses)"""
+    import json as _json
+
+    from pjrpc.common import v20
+    from pjrpc.server.dispatcher import JSONEncoder
+    uses = {}
+
+    def count(k):
+        uses[k] = uses.get(k, 0) + 1
+
+    class Rq(v20.Request):
+        @classmethod
+        def from_json(cls, data):
+            count('request_class')
+            return super().from_json(data)
+
+    class Rs(v20.Response):
+        def to_json(self):
+            count('response_class')
+            return super().to_json()
+
+    class BRq(v20.BatchRequest):
+        @classmethod
+        def from_json(cls, data):
+            count('batch_request')
+            return super().from_json(data)
+
+    class BRs(v20.BatchResponse):
+        def to_json(self):
+            count('batch_response')
+            return super().to_json()
+
+    class Enc(JSONEncoder):
+        def encode(self, o):
+            count('json_encoder')
+            return super().encode(o)
+
+    class Dec(_json.JSONDecoder):
+        def decode(self, s, *a, **kw):
+            count('json_decoder')
+            return super().decode(s, *a, **kw)
+
+    def loads(text, **kw):
+        count('json_loader')
+        return _json.loads(text, **kw)
+
+    def dumps(obj, **kw):
+        count('json_dumper')
+        return _json.dumps(obj, **kw)
+    return dict(request_class=Rq, response_class=Rs, batch_request=BRq, batch_response=BRs, json_encoder=Enc, json_decoder=Dec,
+                json_loader=loads, json_dumper=dumps), uses
+
+
 class Sys:
     """one dispatcher under test plus its call log"""
 
@@ -17,6 +72,11 @@ class Sys:
         self.kind = kind
         self.log = []
         self.is_async = kind.startswith('async')
+        self.uses = None
+        if 'custom' in kind:
+            # 'sync-custom' / 'async-custom': every pluggable class / function replaced by a counting subclass / wrapper
+            cc, self.uses = custom_classes()
+            cfg = dict(cc, **cfg)
         if self.is_async:
             if 'seq' in kind:
                 cfg = dict(cfg, concurrent_batch=False)
